@@ -1638,7 +1638,7 @@ class RefCatalog(object):
 
         elif len(xv) == 1:
             # one point. build a small box around it:
-            tol = 0.5 * self._footprint_tol
+            tol = 0.5 * self._footprint_tol * np.deg2rad(1.0 / 3600.0)
 
             xv = [xv[0] - tol, xv[0] - tol, xv[0] + tol, xv[0] + tol,
                   xv[0] - tol]
@@ -1647,10 +1647,10 @@ class RefCatalog(object):
 
         elif len(xv) == 2 or len(xv) == 3:
             # two points. build a small box around them:
-            tol = 0.5 * self._footprint_tol
+            tol = 0.5 * self._footprint_tol * np.deg2rad(1.0 / 3600.0)
 
-            vx = yv[1] - yv[0]
-            vy = xv[1] - xv[0]
+            vx = xv[1] - xv[0]
+            vy = yv[1] - yv[0]
             norm = np.sqrt(vx * vx + vy * vy)
             vx /= norm
             vy /= norm
